@@ -698,8 +698,8 @@ theorem constants_match_source :
   refine ⟨?_, ?_, ?_, ?_, ?_⟩
   · first | decide +kernel | fail "constants_match_source (C14): the model's TypedLoad.maxNest does not match the source (Generated.maxNestedGets, re-extracted from pdf/src)"
   · first | decide +kernel | fail "constants_match_source (C14): the model's TypedLoad.maxTreeDepth does not match the source (Generated.maxTreeDepth, re-extracted from pdf/src)"
-  · first | (intros; rfl) | fail "constants_match_source (C14): the model's TypedLoad.Stored, TypedLoad.resolve, TypedLoad.resolveFlags does not match the source (Generated.resolveDepth, re-extracted from pdf/src)"
-  · first | (intros; rfl) | fail "constants_match_source (C14): the model's TypedLoad.PNode, TypedLoad.page, TypedLoad.pageLimited does not match the source (Generated.pageTreeDepth, re-extracted from pdf/src)"
+  · first | ((have _h : Generated.resolveDepth = 16 := (by decide +kernel)); intros; rfl) | fail "constants_match_source (C14): the model's TypedLoad.Stored, TypedLoad.resolve, TypedLoad.resolveFlags does not match the source (Generated.resolveDepth, re-extracted from pdf/src)"
+  · first | ((have _h : Generated.pageTreeDepth = 16 := (by decide +kernel)); intros; rfl) | fail "constants_match_source (C14): the model's TypedLoad.PNode, TypedLoad.page, TypedLoad.pageLimited does not match the source (Generated.pageTreeDepth, re-extracted from pdf/src)"
   · first | decide +kernel | fail "constants_match_source (C14): the model's statement does not match the source (Generated.colorSpaceDepth, re-extracted from pdf/src)"
 
 end C14
